@@ -219,8 +219,8 @@ def L(cid: int):  # noqa: N802
               fn(f"CC{u}/__init__", ["self", "p"], 0)),
     )
     letters["bases_aliased_import_same_last_name"] = (
-        f"class DA{u}(SupBase):\n    pass\n",
-        {"classes": {f"DA{u}": {"superclasses": ["vpkg.support.SupBase"]}}},
+        f"class DA{u}(SupBase):\n    pass\n\n\ndef mkda{u}() -> SupBase:\n    made = SupBase()\n    return made\n",
+        {"classes": {f"DA{u}": {"superclasses": ["vpkg.support.SupBase"]}}, "dontcare_prefixes": [f"mkda{u}"]},
     )
     letters["enum_in_class"] = (
         f"class H{u}:\n    class Col{u}(Enum):\n        RED = 1\n\n    def h(self) -> int:\n        return 1\n",
